@@ -80,6 +80,7 @@ pub mod fen {
 pub mod zobrist {
     use crate::randf as rand;
     include!(concat!(env!("FLOUNDER_SRC"), "/zobrist.rs"));
+    #[cfg(feature = "zobrist_fields")]
     pub mod vh {
         use super::*;
         pub fn from_keys(table_keys: [[[u64; 64]; 6]; 2], w: u64, c: [[u64; 2]; 2], e: [u64; 64]) -> ZobristTable {
@@ -159,6 +160,8 @@ pub mod h_board;
 pub mod h_movegen;
 pub mod h_misc;
 pub mod h_eval;
+#[cfg(feature = "zobrist_fields")]
+pub mod h_zfields;
 
 #[cfg(not(kani))]
 mod native;
